@@ -123,7 +123,9 @@ SrcTerm(st) ==
                   ELSE /\ status' = st /\ obs' = {} /\ live' = FALSE /\ att' = ~rst /\ refs' = refs - Cardinality(obs)
                        /\ UNCHANGED <<mem, total>>
                        /\ h' = Append(h, Rec(IF st = "E" THEN "error" ELSE "complete", 0, deliv, FALSE, total))
-  /\ UNCHANGED <<cfg, used>>
+  \* the observers subscribed from inside a terminal callback exist from now on (they can be unsubscribed like any other)
+  /\ used' = IF live THEN used \cup {i + 3 : i \in (resub \cap obs)} ELSE used
+  /\ UNCHANGED cfg
 
 Next ==
   \/ \E i \in 1..3 : (i = 1 \/ (i - 1) \in used) /\ (Sub(i, FALSE) \/ Sub(i, TRUE))
